@@ -90,9 +90,26 @@ def constants(ctx):
         body = dict(calls[0][4]).get('body')
         flags = body[1][1][1] if kind(body) == 'list' and \
             len(body[1]) == 2 else None
+        names = ('allowReplacement', 'replaceExisting', 'doNotQueue')
+        if flags is not None and not is_const(flags):
+            # computed without branching (a table indexed by the three truth
+            # values, arithmetic on bool()): evaluate it for every
+            # combination this path allows
+            from ..sym import subst_fold
+            known = [True if ('param', n) in p.state.truthy else
+                     False if ('param', n) in p.state.falsy else None
+                     for n in names]
+            for key in itertools.product((False, True), repeat=3):
+                if any(k is not None and k != v
+                       for k, v in zip(known, key)):
+                    continue
+                v2 = subst_fold(flags, {('param', n): C(v)
+                                        for n, v in zip(names, key)})
+                if is_const(v2) and isinstance(v2[1], int):
+                    rows[key] = int(v2[1])
+            continue
         key = tuple(True if ('param', n) in p.state.truthy else False
-                    for n in ('allowReplacement', 'replaceExisting',
-                              'doNotQueue'))
+                    for n in names)
         rows[key] = flags[1] if is_const(flags) else None
     bad = None
     for key in itertools.product((False, True), repeat=3):
